@@ -13,7 +13,7 @@ for d in sorted(glob.glob(os.path.join(ROOT,'seeded','C*'))):
     rows.append('| %s | %s | %s | %s | %s |'%(k,cl(m.get('summary'),230),cl(m.get('needs_to_manifest'),200),s,cl(vr.get('note'),260)))
 hdr='| seed | change | needs to manifest | verdict | note |\n|---|---|---|---|---|\n'
 total=sum(cnt.values())
-summ='%d seeded changes (four independent rounds; rounds 2, 3 and 4 = `-r2`, `-r3`, `-r4`, each written to differ in kind and site from the earlier ones): '%total+', '.join('%d %s'%(v,k) for k,v in sorted(cnt.items()))+'.'
+summ='%d seeded changes (four full rounds over all 44 claimed properties plus a fifth round `-r5` over 14 of them; every later round was written to differ in kind and site from the earlier ones): '%total+', '.join('%d %s'%(v,k) for k,v in sorted(cnt.items()))+'.'
 open(os.path.join(ROOT,'seeded','INDEX.md'),'w').write('# Seeded breaking changes\n\n'+summ+'\n\nEach directory holds patch.diff, the author\'s demonstration (fails with the change, passes without), demo.sh and meta.json (incl. verif_result).\n\n'+hdr+'\n'.join(rows)+'\n')
 p=os.path.join(ROOT,'DESIGN.md'); s=open(p).read()
 sec='''## 11. Seeded-change campaign (which checks catch which changes)
@@ -86,6 +86,20 @@ property quantifies over fault-free chains; recorded as missed, with the experim
 stretched into a check that would also fail on the unchanged tree. The thorough-tier sweep run
 during this round also exposed a floor that could only starve in the thorough tier (C16: a test whose
 bases are invalid by construction inherited the shared acceptance floors) — fixed.
+
+After round 4 the held-results oracle was added PROACTIVELY to the checks that had not yet met such
+a change (C03, C09, C19, C20, C22, C23, C24, C30, C36, C37; `seeded/proactive/` holds the aliasing
+mutations — pooled sinks, scratch buffers, caches keyed by too little — that prove each new test
+sensitive; in most cases ONLY the new test catches its mutation). A fifth round over 14 properties
+(those outside the packages being hardened at the time) then gave 6 caught at once and 8 after
+strengthening: merkle PROOFS after crash recovery (C01: roots were right, only proofs read the
+shifted hash file), a script respelt with a second terminator (C02; caught at once by C16, C23
+extended with a structural-edit family and an independent script grammar model), the same peer
+twice in one governance list (C11), boundary amounts k·10^9 with k >= 2^64 in every native numeric
+argument (C12), map mutation histories with REMOVE before KEYS/VALUES/Serialize and a directed
+Native.Invoke-with-map-argument class (C15), signer sets held across later validations (C17), fork
+siblings in seed sequences against an independent seed derivation (C29), blocks of more than 256
+transactions read back from disk (C40).
 '''
 if '## 11. Seeded-change campaign' in s:
     s=s[:s.index('## 11. Seeded-change campaign')]+sec
